@@ -554,6 +554,11 @@ def translate(ctx):
            "def documentedCreators : List String := [" + ", ".join('"%s"' % a for a in doc) + "]",
            "-- listed in /verif/known_findings.json (genuine defects recorded, not repaired)",
            "def knownFindings : List String := [" + ", ".join('"%s"' % a for a in sorted(known_mutators())) + "]",
+           "-- STATIC side (harness/readlab.py: static_creators): public getters whose source calls something that creates, inserts or",
+           "-- removes XML - read out of /repo's source on every run",
+           "def staticCreators : List String := [" + ", ".join('"%s"' % a for a in R.static_creators(str(common.REPO / "src" / "pptx"))) + "]",
+           "-- reviewed by hand, each with its reason in harness/readlab.py: STATIC_EXEMPT",
+           "def exemptStatic : List String := [" + ", ".join('"%s"' % a for a in sorted(R.STATIC_EXEMPT)) + "]",
            "end Pptx.Gen.C12", ""]
     lg.write_if_changed(GEN, "\n".join(src))
     srcp = ["-- GENERATED by harness/props/c12.py: the obligation over the observed effect table",
@@ -562,6 +567,12 @@ def translate(ctx):
             "    the listed known findings -/",
             "theorem changing_accessors_documented :",
             "    changing.all (fun a => documentedCreators.contains a || knownFindings.contains a) = true := by decide", "",
+            "/-- the observation reaches every getter that CAN create: each getter whose source creates, inserts or removes XML was",
+            "    seen doing so (adds-empty or changing) on some document, or is a documented creator, a listed finding, or exempt for a",
+            "    stated reason - a getter that gains such a call, or one the traversal never reaches, breaks this -/",
+            "theorem static_creators_accounted :",
+            "    staticCreators.all (fun a => addsEmpty.contains a || changing.contains a || documentedCreators.contains a ||",
+            "      knownFindings.contains a || exemptStatic.contains a) = true := by decide", "",
             "end Pptx.GenProps.C12", ""]
     lg.write_if_changed(GENP, "\n".join(srcp))
 
